@@ -432,7 +432,9 @@ class RefCPU:
             self.enter_hyp(new_spsr, preferred, 20)
         else:
             aw = (self.s['scr'] >> 5) & 1
-            set_a = (not self.have_sec()) or self.have_virt() or self.sysbit('scr', 0) == 0 or aw == 1
+            # SCR.NS is cleared first when the exception is taken from Monitor mode (B1.9.8): the mask test reads NS after that
+            ns_after = 0 if self.mode == M_MON else self.sysbit('scr', 0)
+            set_a = (not self.have_sec()) or self.have_virt() or ns_after == 0 or aw == 1
             self._enter_common(M_ABT, new_spsr, new_lr, set_a=set_a)
             self.branch_to(self.exc_vector_base() + 16)
         self.events.append('dabort')
@@ -457,7 +459,8 @@ class RefCPU:
             self.unknown.add('hsr')
             self.enter_hyp(new_spsr, (new_lr - 4) & 0xFFFFFFFF, vect_offset)
         else:
-            nonsec_masked = self.have_sec() and not self.have_virt() and (scr & 1) == 1
+            # SCR.NS is cleared first when the interrupt is taken from Monitor mode (B1.9.10 / B1.9.12)
+            nonsec_masked = self.have_sec() and not self.have_virt() and (scr & 1) == 1 and self.mode != M_MON
             set_a = (not nonsec_masked) or (scr >> 5) & 1 == 1
             set_f = fiq and ((not nonsec_masked) or (scr >> 4) & 1 == 1)
             self._enter_common(M_FIQ if fiq else M_IRQ, new_spsr, new_lr, set_a=set_a, set_f=set_f)
